@@ -352,6 +352,250 @@ def rule_lines(P):
     return r
 
 
+def rule_names(P):
+    """str_matches_option: a token names an option iff it is the option's name, or the name followed by ':' and anything"""
+    r = Rule("C39-names", "K6", "an option token is recognised iff it is exactly the option's name or 'name:' followed by anything (no prefixes, no name followed by other characters)", floor=100)
+    f = P.fn("str_matches_option")
+    names = sorted(code_options(P))
+    if len(names) < 10:
+        r.brk("option names not found in the code (%d)" % len(names))
+        return r
+    for full in names:
+        bare = full.rstrip(":")
+        forms = [bare, bare + ":", bare + ":3", bare + ":junk more", bare + "5", bare + ";", bare + "x:3", bare[:-1], bare[:-1] + ":", bare[:-1] + ":3", "", ":", bare.upper() + ":", "x" + bare, bare + "::"]
+        for tok in forms:
+            env = {"#typed": 1, f.params[0][0]: PStr(tok.encode()), f.params[1][0]: PStr(full.encode())}
+            vals = set()
+            for o in run_all(f, (f.entry, 0), env, lambda el: False, P, lambda el, e_: None, max_steps=400):
+                if o.kind == "exit" and o.why == "noreturn":
+                    continue
+                if o.kind != "ret":
+                    r.brk("str_matches_option(%r, %r): %s %s" % (tok, full, o.kind, o.why))
+                    return r
+                try:
+                    vals.add(bool(tevalx(normx(o.at.e[1]), o.env, P, f)))
+                except EvalError as ex:
+                    r.brk("str_matches_option(%r, %r): %s" % (tok, full, ex))
+                    return r
+            want = tok == bare or tok.startswith(bare + ":")
+            r.inst((full, tok), {"option": full, "token": tok, "matches": sorted(vals), "documented": want})
+            if vals != {want}:
+                r.bad("K6:str_matches_option:%s" % ("accepts-junk" if not want else "misses"), "%s:%d" % (f.file, f.line), f.name,
+                      "token %r against option %r: %s; an option is named by %r or by %r followed by its value" % (tok, full, "matches" if True in vals else "does not match", bare, bare + ":"))
+    seen, uniq = set(), []
+    for f_ in r.findings:
+        if f_.key not in seen:
+            seen.add(f_.key)
+            uniq.append(f_)
+    r.findings = uniq
+    return r
+
+
+def strtok_mem(e_, sp, delims, statevar):
+    """strtok_r on the byte memory: -> token address or 0; writes the terminator; keeps the continuation in e_[statevar]"""
+    if not sp:
+        sp = e_.get(statevar)
+        if not sp:
+            return 0
+    p = sp
+    while True:
+        b = e_.get(("m", p))
+        if b is None:
+            e_["#oob"] = "strtok_r reads byte %d behind the line" % p
+            return 0
+        if b == 0:
+            e_[statevar] = p
+            return 0
+        if b not in delims:
+            break
+        p += 1
+    tok = p
+    while True:
+        b = e_.get(("m", p))
+        if b is None:
+            e_["#oob"] = "strtok_r reads byte %d behind the line" % p
+            return 0
+        if b == 0:
+            e_[statevar] = p
+            return tok
+        if b in delims:
+            e_[("m", p)] = 0
+            e_[statevar] = p + 1
+            return tok
+        p += 1
+
+
+def ref_hosts_line(t):
+    """hosts(5): IP-address name [alias ...]; '#' starts a comment -> (address, [names]) or None when the line adds nothing"""
+    t = t.split(b"#", 1)[0]
+    toks = t.split()
+    if not toks:
+        return None
+    ad = toks[0]
+    v4 = re.match(rb"^\d+\.\d+\.\d+\.\d+$", ad)
+    v6 = b":" in ad and re.match(rb"^[0-9a-fA-F:]+$", ad)
+    if not (v4 or v6):
+        return None
+    return ad, toks[1:]
+
+
+def rule_hosts(P):
+    """evdns_base_parse_hosts_line on hosts(5) line forms in byte memory (it cuts the line in place)"""
+    from ..cmem import MEM0, mem_put, mem_str, mem_hook
+    r = Rule("C39-hosts", "K6", "a hosts line adds exactly its names (up to a comment) for its address, nothing for comments, blank lines, bad addresses and addresses with a port; names are copied whole into blocks of their size", floor=14)
+    f = P.fn("evdns_base_parse_hosts_line")
+    lines = [b"127.0.0.1 localhost", b"127.0.0.1\tlocalhost  lh  loopback", b"  10.0.0.1 a.example", b"::1 ip6-localhost ip6-loopback", b"# comment", b"", b"   ", b"10.0.0.1", b"10.0.0.1 a #c", b"10.0.0.1 a#c b",
+             b"10.0.0.1 #c a", b"10.0.0.1 a b#", b"bogus name", b"10.0.0.1:53 name", b"10.0.0.1 a # b c", b"#10.0.0.1 a", b"10.0.0.1 a\t\tb \t", b"fe80::1 x"]
+    slack = set()
+    for line in lines:
+        env = {"#typed": 1, "#bytemem": 1, "event_debug_logging_mask_": 0, f.params[0][0]: PPtr("base"), ("@", "base", "#zero"): 1, ("@", "base", "evdns_base.lock"): 0, f.params[1][0]: MEM0, "delims": PStr(b" \t"),
+               "#names": ()}
+        mem_put(env, MEM0, line)
+
+        def extra(el, e_):
+            n = callee_name(el.e)
+            a = el.e[2]
+            if n in ("strtok_r", "__strtok_r"):
+                s0 = evalx(normx(a[0]), e_, P)
+                dl = evalx(normx(a[1]), e_, P).text()
+                st = strip(a[2])
+                if not (is_e(st, "addr") and is_e(strip(st[1]), "var")):
+                    return "impure"
+                return strtok_mem(e_, s0 if isinstance(s0, int) and not isinstance(s0, bool) else 0, dl, "#tok:" + strip(st[1])[1])
+            if n == "evthread_is_debug_lock_held_":
+                return 1
+            if n == "evutil_parse_sockaddr_port":
+                ad = mem_str(e_, evalx(normx(a[0]), e_, P)) or b""
+                lenp = strip(a[2])
+                lv = strip(lenp[1])[1] if is_e(lenp, "addr") and is_e(strip(lenp[1]), "var") else None
+                if lv is None:
+                    return "impure"
+                e_["#addr"] = ad
+                if re.match(rb"^\d+\.\d+\.\d+\.\d+(:\d+)?$", ad):
+                    e_[lv] = 16
+                    e_["#port"] = 1 if b":" in ad else 0
+                    return 0
+                if b":" in ad and re.match(rb"^[0-9a-fA-F:]+$", ad):
+                    e_[lv] = 28
+                    e_["#port"] = 0
+                    return 0
+                return -1
+            if n == "sockaddr_getport":
+                return e_.get("#port", 0)
+            if n == "memset":
+                return 0
+            if n in ("memcpy", "__builtin_memcpy", "__builtin___memcpy_chk") and "hostname" in show(a[0]):
+                sp, cnt = evalx(normx(a[1]), e_, P), evalx(normx(a[2]), e_, P)
+                if any(e_.get(("m", sp + k)) is None for k in range(cnt)):
+                    e_["#oob"] = "copies %d bytes of the name from %d: behind the line" % (cnt, sp)
+                data = bytes(e_.get(("m", sp + k), 0x3f) for k in range(cnt))
+                e_["#names"] = e_["#names"] + ((data, cnt, e_["#blocks"][-1][1] if e_.get("#blocks") else -1),)
+                return 0
+            return None
+        outs = [o for o in run_all(f, (f.entry, 0), env, lambda el: False, P, mem_hook(P, extra), max_steps=6000) if not (o.kind == "exit" and o.why == "noreturn")]
+        want = ref_hosts_line(line)
+        for o in outs:
+            if o.kind != "ret":
+                r.brk("evdns_base_parse_hosts_line(%r): %s %s %s" % (line, o.kind, o.why, o.env.get("#err", "")))
+                return r
+            names = o.env["#names"]
+            got = [d[:-1] for d, c, sz in names]
+            r.inst(line, {"line": line.decode(), "address": (o.env.get("#addr") or b"").decode(), "names_added": [g.decode("latin-1") for g in got]})
+            bad = None
+            if o.env.get("#oob"):
+                bad = ("out-of-bounds", o.env["#oob"])
+            elif got != (want[1] if want else []):
+                bad = ("names", "adds %s; hosts(5): %s" % (got, want[1] if want else "nothing"))
+            elif want and names and o.env.get("#addr") != want[0]:
+                bad = ("address", "address token %r, hosts(5): %r" % (o.env.get("#addr"), want[0]))
+            else:
+                for d, c, sz in names:
+                    if not d.endswith(b"\0") or c != len(d):
+                        bad = ("terminator", "name %r copied without its terminator" % d)
+                    slack.add(sz - c)
+            if bad:
+                r.bad("K6:evdns_base_parse_hosts_line:%s" % bad[0], "%s:%d" % (f.file, f.line), f.name, "line %r: %s" % (line, bad[1]))
+    if len(slack) > 1:
+        r.bad("K6:evdns_base_parse_hosts_line:block-size", "%s:%d" % (f.file, f.line), f.name, "the block allocated for an entry does not grow with the name it holds (size minus bytes copied takes the values %s)" % sorted(slack))
+    seen, uniq = set(), []
+    for f_ in r.findings:
+        if f_.key not in seen:
+            seen.add(f_.key)
+            uniq.append(f_)
+    r.findings = uniq
+    return r
+
+
+FILES = [b"", b"a", b"a\n", b"a\nb", b"a\nb\n", b"\n", b"\n\n", b"a\n\nb", b"nameserver 1.2.3.4\nsearch x y\n", b"a #c\n#d", b"x\n" * 5]
+
+
+def rule_files(P):
+    """the two file readers: every line of the file, in order, once, each as a terminated string inside the buffer; the buffer is released once"""
+    from ..cmem import MEM0, mem_put, mem_str, mem_hook
+    r = Rule("C39-files", "K6", "resolv.conf and hosts readers hand every line of the file to the line parser, in order, once, inside the buffer, and free the buffer once", floor=20)
+    for fname, linefn in (("evdns_base_resolv_conf_parse_impl", "resolv_conf_parse_line"), ("evdns_base_load_hosts_impl", "evdns_base_parse_hosts_line")):
+        f = P.fn(fname)
+        for content in FILES:
+            env = {"#typed": 1, "#bytemem": 1, "event_debug_logging_mask_": 0, f.params[0][0]: PPtr("base"), ("@", "base", "#zero"): 1, ("@", "base", "evdns_base.lock"): 0, "#lines": (), "#freed": ()}
+            if fname.endswith("parse_impl"):
+                env[f.params[1][0]] = 0
+                env[f.params[2][0]] = PStr(b"/etc/resolv.conf")
+                env[("@", "base", "evdns_base.server_head")] = PPtr("ns")
+            else:
+                env[f.params[1][0]] = PStr(b"/etc/hosts")
+
+            def extra(el, e_):
+                n = callee_name(el.e)
+                a = el.e[2]
+                if n == "evutil_read_file_":
+                    mem_put(e_, MEM0, content)
+                    outp, lenp = strip(a[1]), strip(a[2])
+                    if not (is_e(outp, "addr") and is_e(strip(outp[1]), "var") and is_e(lenp, "addr") and is_e(strip(lenp[1]), "var")):
+                        return "impure"
+                    e_[strip(outp[1])[1]] = MEM0
+                    e_[strip(lenp[1])[1]] = len(content)
+                    return 0
+                if n == linefn:
+                    sp = evalx(normx(a[1]), e_, P)
+                    t = mem_str(e_, sp) if isinstance(sp, int) and MEM0 <= sp <= MEM0 + len(content) else None
+                    e_["#lines"] = e_["#lines"] + (t,)
+                    return 0
+                if n == "event_mm_free_":
+                    e_["#freed"] = e_["#freed"] + (evalx(normx(a[0]), e_, P),)
+                    return 0
+                if n == "evthread_is_debug_lock_held_":
+                    return 1
+                if n in ("evdns_log_", "search_set_from_hostname", "evdns_resolv_set_defaults"):
+                    return 0
+                return None
+            outs = [o for o in run_all(f, (f.entry, 0), env, lambda el: False, P, mem_hook(P, extra), max_steps=6000) if not (o.kind == "exit" and o.why == "noreturn")]
+            want = tuple(content.split(b"\n"))
+            for o in outs:
+                if o.kind != "ret":
+                    r.brk("%s(%r): %s %s %s" % (fname, content, o.kind, o.why, o.env.get("#err", "")))
+                    return r
+                got = o.env["#lines"]
+                r.inst((fname, content), {"reader": fname, "file": content.decode(), "lines": [None if x is None else x.decode() for x in got], "freed": list(o.env["#freed"])})
+                bad = None
+                if o.env.get("#oob"):
+                    bad = ("out-of-bounds", o.env["#oob"])
+                elif None in got:
+                    bad = ("line-outside-buffer", "a line handed to %s does not lie inside the file buffer / is not terminated inside it" % linefn)
+                elif got != want:
+                    bad = ("lines", "lines handed to %s: %s; the file's lines: %s" % (linefn, list(got), list(want)))
+                elif list(o.env["#freed"]) != [MEM0]:
+                    bad = ("buffer-release", "the file buffer is freed %s" % (list(o.env["#freed"]) or "never"))
+                if bad:
+                    r.bad("K6:%s:%s" % (fname, bad[0]), "%s:%d" % (f.file, f.line), fname, "file %r: %s" % (content, bad[1]))
+    seen, uniq = set(), []
+    for f_ in r.findings:
+        if f_.key not in seen:
+            seen.add(f_.key)
+            uniq.append(f_)
+    r.findings = uniq
+    return r
+
+
 def rule_search_add(P):
     """search_postfix_add: the stored postfix is the domain without its leading dots, its recorded length is that text's, the copy reads only the caller's string and fits the block"""
     from ..cmem import MEM0, mem_put, mem_str, mem_hook
@@ -408,7 +652,7 @@ def rule_search_add(P):
 def run(ctx, config):
     P = ctx.prog(UNITS, config)
     rules = []
-    for mk in (rule_table, rule_options, rule_lines, rule_search_add):
+    for mk in (rule_table, rule_names, rule_options, rule_lines, rule_search_add, rule_hosts, rule_files):
         try:
             rules.append(mk(P))
         except AnalysisBroken as ex:
